@@ -194,6 +194,34 @@ theorem matches_ofStr (p s : List Char) : Matches (Re.ofStr p) s ↔ s = p := by
       subst h
       exact Matches.cat (s := [c]) (.cls (by simp [CC.test])) ((ih p).2 rfl)
 
+/-- **`search` is membership of some infix** -/
+theorem searchmatch_iff (r : Re) (s : List Char) :
+    searchmatch r s = true ↔ ∃ a p t, s = a ++ p ++ t ∧ Matches r p := by
+  induction s with
+  | nil =>
+    simp only [searchmatch]
+    rw [nullable_iff]
+    constructor
+    · intro h; exact ⟨[], [], [], rfl, h⟩
+    · rintro ⟨a, p, t, h, hm⟩
+      have hl := congrArg List.length h
+      simp at hl
+      have : p = [] := List.eq_nil_of_length_eq_zero (by omega)
+      subst this; exact hm
+  | cons c s ih =>
+    simp only [searchmatch, Bool.or_eq_true]
+    rw [prefixmatch_iff, ih]
+    constructor
+    · rintro (⟨p, t, h, hm⟩ | ⟨a, p, t, h, hm⟩)
+      · exact ⟨[], p, t, by simpa using h, hm⟩
+      · exact ⟨c :: a, p, t, by simp [h], hm⟩
+    · rintro ⟨a, p, t, h, hm⟩
+      cases a with
+      | nil => exact .inl ⟨p, t, by simpa using h, hm⟩
+      | cons d a' =>
+        simp only [List.cons_append, List.cons.injEq] at h
+        exact .inr ⟨a', p, t, h.2, hm⟩
+
 theorem isExcludedName_iff (pats : List Re) (name : List Char) :
     isExcludedName pats name = true ↔ ∃ p ∈ pats, Matches p name := by
   simp only [isExcludedName, List.any_eq_true]
